@@ -59,3 +59,19 @@ Theorem C12_searchsorted_right : forall x1 v, Sorted Z.le x1 ->
   (forall j, (j < i)%nat -> (nth j x1 0 <= v)%Z) /\ (forall j, (i <= j)%nat -> (j < length x1)%nat -> (v < nth j x1 0)%Z).
 Proof. exact searchsorted_right_is_insertion_point. Qed.
 Print Assumptions C12_searchsorted_right.
+
+(* nonzero: the lowering (index grid rows compressed by x != 0, flattened, column i gathered at i, i+r, i+2r, ...)
+   returns, for every shape of rank >= 1 and every data, one vector per axis holding the coordinates of the
+   non-zero elements in row-major order *)
+From ND Require Import Base.Tensor Ndx.NonzeroFacts.
+Theorem C12_nonzero_lowering_is_numpy : forall sh data, ndx_nonzero sh data = nonzero_coords sh data (all_idx sh).
+Proof. exact ndx_nonzero_is_numpy. Qed.
+Theorem C12_nonzero_hits_are_the_nonzero_positions_in_row_major_order : forall sh data, length data = size sh ->
+  nz_rows sh data = filter (fun idx => negb (nth (ravel sh idx) data 0%Z =? 0)%Z) (all_idx sh).
+Proof. exact nz_rows_spec. Qed.
+Print Assumptions C12_nonzero_lowering_is_numpy.
+(* where on booleans is lowered to xor(and(c, a), and(not c, b)) *)
+Theorem C12_where_bool_lowering_selects : forall c a b : bool, xorb (c && a) (negb c && b) = if c then a else b.
+Proof. exact where_bool_trick. Qed.
+Example C12_ex_nonzero : ndx_nonzero [2; 3]%nat [0; 5; 0; 7; 0; 9]%Z = [[0; 1; 1]; [1; 0; 2]]%nat.
+Proof. reflexivity. Qed.
